@@ -849,12 +849,23 @@ class Executor:
                     paths = [x for x in data.split("\0" if z else "\n") if x]
                 if not paths:
                     return result(128, "", "fatal: no path specified\n")
-                ign = [x for x in paths if ex.git_ignored(x, git)]
-                rc = 0 if ign else 1
-                ex.ev("git", [ex.relpath(x) for x in paths], rc)
+                verbose = "-v" in flags or "--verbose" in flags
+                dec = [(x,) + ex.git_decision(x, git) for x in paths]
+                if verbose:
+                    # verbose mode reports (and exits 0 for) every path that matched a pattern, negated ones included
+                    hit = [(x, ig, r) for x, ig, r in dec if r is not None]
+                else:
+                    hit = [(x, ig, r) for x, ig, r in dec if ig]
+                rc = 0 if hit else 1
+                ex.ev("git", [ex.relpath(x) for x in paths], "v" if verbose else "", rc)
                 out = ""
                 if "-q" not in flags and "--quiet" not in flags:
-                    out = "".join((x + "\0") if z else (git_quote(x) + "\n") for x in ign)
+                    for x, ig, r in hit:
+                        if verbose:
+                            pat = ("!" if r["neg"] else "") + "/" + r["path"]
+                            out += f".gitignore:{r.get('line', 1)}:{pat}\t" + (x + "\0" if z else git_quote(x) + "\n")
+                        else:
+                            out += (x + "\0") if z else (git_quote(x) + "\n")
                 return result(rc, out)
 
             def __getattr__(self, a):
@@ -950,18 +961,46 @@ class Executor:
                 sha(res["stdout"]), sha(res["stderr"]))
         return res
 
-    def git_ignored(self, path, git):
-        """M-ignore: model paths (relative to the scratch root) reported as ignored."""
+    def git_decision(self, path, git):
+        """M-ignore: (ignored, matched rule) for a path as the code under test spelled it."""
         if not git:
-            return False
+            return False, None
         ap = os.path.normpath(os.path.join(os.getcwd(), path))
         root = os.path.realpath(self.scratch) if self.scratch else "/"
         ap = os.path.realpath(ap)
         rel = os.path.relpath(ap, root)
-        for ig in git.get("ignored", []):
-            if rel == ig or rel.startswith(ig.rstrip("/") + "/"):
-                return True
-        return False
+        return git_decide(rel, git_rules(git))
+
+    def git_ignored(self, path, git):
+        return self.git_decision(path, git)[0]
+
+
+def git_rules(git):
+    """Ordered ignore rules of the model: [{"path": p, "neg": bool}…] (legacy key "ignored" = plain rules)."""
+    rules = [{"path": p, "neg": False} for p in (git or {}).get("ignored", [])]
+    rules += list((git or {}).get("rules", []))
+    return rules
+
+
+def git_decide(rel, rules):
+    """(ignored, matched_rule) for a model-relative path under git's semantics for anchored path patterns:
+    the last matching rule wins; a file below an excluded directory cannot be re-included."""
+    parts = rel.split("/")
+    for k in range(1, len(parts)):
+        anc = "/".join(parts[:k])
+        last = None
+        for r in rules:
+            if r["path"].rstrip("/") == anc:
+                last = r
+        if last is not None and not last["neg"]:
+            return True, last
+    last = None
+    for r in rules:
+        if r["path"].rstrip("/") == rel:
+            last = r
+    if last is None:
+        return False, None
+    return (not last["neg"]), last
 
 
 def git_quote(path):
